@@ -245,11 +245,26 @@ struct Sink
       if(!desc.empty()) j.str("desc", desc);
       emit(j.done());
    }
+   int sinceFlush = 0;
    void end(long long k)
    {
       Json j;
       j.str("ev", "end").num("case", k);
       emit(j.done());
+      // periodic incremental summaries, so that the observations of completed cases survive a later crash of this worker
+      if(++sinceFlush >= 25) flushSummary();
+   }
+   void flushSummary()
+   {
+      sinceFlush = 0;
+      long long nv = nviol;
+      finishRecord("partial");
+      counters.clear();
+      maxima.clear();
+      distinct.clear();
+      samples.clear();
+      maxSamples = 0;
+      nviol = nv;
    }
    void count(const std::string& name, long long d = 1)
    {
@@ -288,8 +303,12 @@ struct Sink
    }
    void finish()
    {
+      finishRecord("summary");
+   }
+   void finishRecord(const char* evname)
+   {
       Json j;
-      j.str("ev", "summary");
+      j.str("ev", evname);
       {
          Json c;
          for(auto& kv : counters) c.num(kv.first, kv.second);
